@@ -206,6 +206,13 @@ Section Rewrite.
     | [] => filter (fun c => String.eqb (effective_ns (c_cur c)) ns) cands
     end.
 
+  (* filterMapCandidatesByNamespace *)
+  Definition mapping_cands (kvs : list (string * node)) (cands : list cand) : list cand :=
+    match find_field "namespace" kvs with
+    | None => cands
+    | Some ns_node => by_namespace (node_value ns_node) cands
+    end.
+
   (* Filter.setMapping *)
   Definition nr_set_mapping (x : referrer_ctx) (cands : list cand) (n : node) : res node :=
     match n with
@@ -213,10 +220,7 @@ Section Rewrite.
         match find_field "name" kvs with
         | None => Err
         | Some name_node =>
-            let cands' := match find_field "namespace" kvs with
-                          | None => cands
-                          | Some ns_node => by_namespace (node_value ns_node) cands
-                          end in
+            let cands' := mapping_cands kvs cands in
             let old := node_value name_node in
             do r <- select_referral x old cands' all_names_and_namespaces_same;
             match r with
